@@ -230,3 +230,178 @@ def build(spec, qkeras_mod=None):
     ins = [get(i) for i in l["in"]]
     nodes.append(layer(ins if len(ins) > 1 else ins[0]))
   return tf.keras.Model(inp, nodes[-1])
+
+
+# ----------------------------------------------------------------------------- quantized model specs
+def Qd(cls, **kw):
+  """JSON-able quantizer descriptor, instantiated by build()."""
+  return {"qcls": cls, "kw": kw}
+
+
+WQD = [Qd("quantized_bits", bits=4, integer=0, symmetric=1, alpha=1.0),
+       Qd("quantized_bits", bits=4, integer=0, symmetric=1, alpha="auto_po2", scale_axis=0),
+       Qd("quantized_bits", bits=6, integer=2, alpha="auto"),
+       Qd("quantized_bits", bits=5, integer=1, symmetric=1, alpha="auto_po2", min_po2_exponent=-3, max_po2_exponent=-1),
+       Qd("quantized_bits", bits=4, integer=0, symmetric=1, qnoise_factor=0.5),
+       Qd("quantized_bits", bits=3, integer=1, symmetric=0, keep_negative=False, alpha=1.0),
+       Qd("quantized_po2", bits=4, max_value=2.0), Qd("quantized_po2", bits=4, log2_rounding="floor"),
+       Qd("ternary", alpha="auto"), Qd("ternary", alpha=1.0, threshold=0.7), Qd("ternary", alpha="auto_po2", number_of_unrolls=2),
+       Qd("binary", alpha="auto", scale_axis=0), Qd("binary", use_01=True, alpha=1.0), Qd("binary", alpha="auto_po2", min_po2_exponent=-2),
+       Qd("quantized_linear", bits=4, integer=0, alpha="auto_po2"), Qd("quantized_linear", bits=5, integer=1, symmetric=0),
+       Qd("stochastic_ternary", alpha="auto"), Qd("stochastic_binary", alpha="auto_po2"), None]
+BQD = [Qd("quantized_bits", bits=4, integer=0, symmetric=1), Qd("quantized_bits", bits=8, integer=3, symmetric=1, alpha=1.0),
+       Qd("quantized_po2", bits=4), Qd("quantized_linear", bits=6, integer=2), None]
+AQD = [Qd("quantized_relu", bits=4, integer=1), Qd("quantized_relu", bits=4, integer=1, negative_slope=0.25),
+       Qd("quantized_relu", bits=6, integer=2, is_quantized_clip=False, relu_upper_bound=1.5),
+       Qd("quantized_relu", bits=4, integer=1, use_sigmoid=1), Qd("quantized_tanh", bits=4, symmetric=True),
+       Qd("quantized_tanh", bits=5, use_real_tanh=True), Qd("quantized_sigmoid", bits=4, use_real_sigmoid=True),
+       Qd("quantized_sigmoid", bits=5, symmetric=True), Qd("quantized_bits", bits=6, integer=2, symmetric=1),
+       Qd("binary"), Qd("ternary", alpha=1.0), Qd("quantized_po2", bits=4, max_value=4.0),
+       Qd("quantized_relu_po2", bits=4, negative_slope=0.25), Qd("quantized_relu_po2", bits=4, max_value=2.0),
+       Qd("quantized_hswish", bits=6, integer=2, relu_shift=2, relu_upper_bound=4), Qd("quantized_ulaw", bits=4, integer=1, u=100.0),
+       Qd("quantized_linear", bits=6, integer=2), "relu", "tanh", None]
+Q_LAYER_KINDS_IMG = ["QConv2D", "QDepthwiseConv2D", "QSeparableConv2D", "QConv2DBatchnorm", "QDepthwiseConv2DBatchnorm",
+                     "QActivation", "QAdaptiveActivation", "QBatchNormalization", "QAveragePooling2D",
+                     "QGlobalAveragePooling2D", "QScaleShift", "QConv2D_mask", "Flatten"]
+Q_LAYER_KINDS_SEQ = ["QConv1D", "QSeparableConv1D", "QSimpleRNN", "QLSTM", "QGRU", "QBidirectional", "QActivation", "Flatten"]
+Q_LAYER_KINDS_VEC = ["QDense", "QDense", "QActivation", "QAdaptiveActivation", "QBatchNormalization", "QScaleShift"]
+
+
+def q_model_spec(rnd, kinds_filter=None, min_layers=2, max_layers=5):
+  nm = _Names()
+  mode = rnd.choice(["img", "vec", "seq"])
+  shape = {"img": [6, 6, 2], "vec": [5], "seq": [4, 3]}[mode]
+  layers = []
+  rank = len(shape) + 1
+  spatial = shape[0]
+
+  def add(t, prefix, kw):
+    layers.append({"t": t, "name": nm(prefix), "kw": kw, "in": [len(layers) - 1]})
+
+  def pick_kinds():
+    ks = {4: Q_LAYER_KINDS_IMG, 3: Q_LAYER_KINDS_SEQ, 2: Q_LAYER_KINDS_VEC}[rank]
+    if kinds_filter:
+      ks = [k for k in ks if k in kinds_filter or k == "Flatten"] or ks
+    return ks
+
+  for _ in range(rnd.randint(min_layers, max_layers)):
+    t = rnd.choice(pick_kinds())
+    ub = bool(rnd.randint(0, 1))
+    wq, wq2, bq, aq = rnd.choice(WQD), rnd.choice(WQD), rnd.choice(BQD) if ub else None, rnd.choice(AQD)
+    if t == "QDense":
+      add(t, "qdense", {"units": rnd.randint(1, 4), "kernel_quantizer": wq, "bias_quantizer": bq, "activation": aq, "use_bias": ub})
+    elif t in ("QConv2D", "QConv2D_mask"):
+      kw = {"filters": rnd.randint(1, 3), "kernel_size": [rnd.randint(1, 2)] * 2, "padding": rnd.choice(["same", "valid"]),
+            "strides": rnd.choice([1, 1, 2]), "kernel_quantizer": wq, "bias_quantizer": bq, "activation": aq, "use_bias": ub}
+      if t == "QConv2D_mask":
+        k = kw["kernel_size"][0]
+        kw["mask"] = [[1 if (i + j) % 2 == 0 else 0 for j in range(k)] for i in range(k)]
+      add("QConv2D", "qconv", kw)
+    elif t == "QConv1D":
+      add(t, "qconv1d", {"filters": rnd.randint(1, 3), "kernel_size": rnd.randint(1, 2), "padding": rnd.choice(["same", "causal"]),
+                         "kernel_quantizer": wq, "bias_quantizer": bq, "activation": aq, "use_bias": ub})
+    elif t == "QDepthwiseConv2D":
+      add(t, "qdw", {"kernel_size": [rnd.randint(1, 2)] * 2, "padding": "same", "depth_multiplier": rnd.randint(1, 2),
+                     "depthwise_quantizer": wq, "bias_quantizer": bq, "activation": aq, "use_bias": ub})
+    elif t == "QSeparableConv2D":
+      add(t, "qsep", {"filters": rnd.randint(1, 3), "kernel_size": [rnd.randint(1, 2)] * 2, "padding": "same",
+                      "depthwise_quantizer": wq, "pointwise_quantizer": wq2, "bias_quantizer": bq, "activation": aq, "use_bias": ub})
+    elif t == "QSeparableConv1D":
+      add(t, "qsep1d", {"filters": rnd.randint(1, 3), "kernel_size": rnd.randint(1, 2), "padding": "same",
+                        "depthwise_quantizer": wq, "pointwise_quantizer": wq2, "bias_quantizer": bq, "activation": aq, "use_bias": ub})
+    elif t in ("QConv2DBatchnorm", "QDepthwiseConv2DBatchnorm"):
+      kw = {"kernel_size": [rnd.randint(1, 2)] * 2, "padding": "same", "bias_quantizer": bq, "activation": aq, "use_bias": ub,
+            "folding_mode": rnd.choice(["ema_stats_folding", "batch_stats_folding"])}
+      if t == "QConv2DBatchnorm":
+        kw.update(filters=rnd.randint(1, 3), kernel_quantizer=wq)
+      else:
+        kw.update(depthwise_quantizer=wq)
+      add(t, "qfold", kw)
+    elif t in ("QSimpleRNN", "QLSTM", "QGRU"):
+      seq = bool(rnd.randint(0, 1))
+      kw = {"units": rnd.randint(1, 3), "kernel_quantizer": wq, "recurrent_quantizer": wq2, "bias_quantizer": bq,
+            "state_quantizer": rnd.choice([None, Qd("quantized_bits", bits=6, integer=2, symmetric=1)]),
+            "activation": rnd.choice([Qd("quantized_tanh", bits=4), "tanh", Qd("quantized_bits", bits=6, integer=2, symmetric=1)]),
+            "return_sequences": seq, "use_bias": ub}
+      if t != "QSimpleRNN":
+        kw["recurrent_activation"] = rnd.choice([Qd("quantized_sigmoid", bits=4), "sigmoid", "hard_sigmoid"])
+      if t == "QGRU":
+        kw["reset_after"] = bool(rnd.randint(0, 1))
+      add(t, "qrnn", kw)
+      if not seq:
+        rank = 2
+    elif t == "QBidirectional":
+      seq = bool(rnd.randint(0, 1))
+      add(t, "qbidir", {"inner": rnd.choice(["QLSTM", "QSimpleRNN", "QGRU"]), "units": rnd.randint(1, 3),
+                        "kernel_quantizer": wq, "recurrent_quantizer": wq2, "bias_quantizer": bq, "return_sequences": seq, "use_bias": ub})
+      if not seq:
+        rank = 2
+    elif t == "QActivation":
+      a = rnd.choice([x for x in AQD if isinstance(x, dict)])
+      add(t, "qact", {"activation": a})
+    elif t == "QAdaptiveActivation":
+      add(t, "qadapt", {"activation": rnd.choice(["quantized_relu", "quantized_bits"]), "total_bits": rnd.randint(3, 8),
+                        "symmetric": bool(rnd.randint(0, 1)), "per_channel": bool(rnd.randint(0, 1)),
+                        "po2_rounding": bool(rnd.randint(0, 1)), "quantization_delay": rnd.choice([0, 5])})
+    elif t == "QBatchNormalization":
+      kw = {"center": bool(rnd.randint(0, 1)), "scale": bool(rnd.randint(0, 1))}
+      if rnd.random() < 0.5:
+        kw.update(gamma_quantizer=Qd("quantized_relu_po2", bits=6, max_value=4), beta_quantizer=Qd("quantized_po2", bits=5, max_value=4),
+                  mean_quantizer=Qd("quantized_po2", bits=5, max_value=4), variance_quantizer=Qd("quantized_relu_po2", bits=6, max_value=4, quadratic_approximation=True))
+      add(t, "qbn", kw)
+    elif t == "QAveragePooling2D":
+      if spatial >= 2:
+        add(t, "qpool", {"pool_size": [2, 2], "average_quantizer": rnd.choice([None, Qd("quantized_bits", bits=8, integer=0, symmetric=1), Qd("quantized_bits", bits=4, integer=0, symmetric=1)]),
+                         "activation": rnd.choice([None, Qd("quantized_bits", bits=6, integer=2, symmetric=1)])})
+        spatial //= 2
+    elif t == "QGlobalAveragePooling2D":
+      add(t, "qgap", {"average_quantizer": rnd.choice([None, Qd("quantized_bits", bits=8, integer=0, symmetric=1)]),
+                      "activation": rnd.choice([None, Qd("quantized_relu", bits=6, integer=2)])})
+      rank = 2
+    elif t == "QScaleShift":
+      add(t, "qss", {"weight_quantizer": rnd.choice([q for q in WQD if q and q["qcls"] in ("quantized_bits", "quantized_po2")]),
+                     "bias_quantizer": bq, "use_bias": ub, "activation": rnd.choice([None, Qd("quantized_bits", bits=6, integer=2, symmetric=1)])})
+    elif t == "Flatten":
+      if rank > 2:
+        add(t, "flat", {})
+        rank = 2
+  if not layers:
+    add("QActivation", "qact", {"activation": Qd("quantized_relu", bits=4, integer=1)})
+  layers[0]["in"] = [-1]
+  return {"input": shape, "layers": layers}
+
+
+def _inst(v):
+  """Instantiates quantizer descriptors inside a kwargs value."""
+  if isinstance(v, dict) and "qcls" in v:
+    from qkeras import quantizer_registry
+    return quantizer_registry.lookup_quantizer(v["qcls"])(**v["kw"])
+  return v
+
+
+def build_q(spec):
+  """Builds a quantized model from a spec whose kwargs may hold quantizer descriptors."""
+  import numpy as np
+  import tensorflow as tf
+  import qkeras
+  L = tf.keras.layers
+  inp = L.Input(tuple(spec["input"]), name="in")
+  nodes = []
+  for l in spec["layers"]:
+    kw = {k: _inst(v) for k, v in l["kw"].items()}
+    t = l["t"]
+    for k in ("kernel_size", "pool_size"):
+      if isinstance(kw.get(k), list):
+        kw[k] = tuple(kw[k])
+    if "mask" in kw:
+      kw["mask"] = np.array(kw["mask"])
+    if t == "QBidirectional":
+      inner = getattr(qkeras, kw.pop("inner"))
+      layer = qkeras.QBidirectional(inner(kw.pop("units"), name=l["name"] + "_inner", **kw), name=l["name"])
+    elif hasattr(qkeras, t):
+      layer = getattr(qkeras, t)(name=l["name"], **kw)
+    else:
+      layer = getattr(L, t)(name=l["name"], **kw)
+    ins = [inp if i == -1 else nodes[i] for i in l["in"]]
+    nodes.append(layer(ins if len(ins) > 1 else ins[0]))
+  return tf.keras.Model(inp, nodes[-1])
